@@ -38,7 +38,16 @@ type src struct {
 	hasTS     bool   // has a Time column "ts"
 	ok        string // clean 6-row table with columns id, g, s of matching types (the other join side)
 	pred      func(alias string) string
-	faultNote string
+	// list renders a list-valued select expression; -o csv cannot print a list column (it panics,
+	// which is C07's finding), so in csv mode the list is reduced to its length.
+	list func(expr string) string
+}
+
+func (x src) lst(expr string) string {
+	if x.list == nil {
+		return expr
+	}
+	return x.list(expr)
 }
 
 type fault struct {
@@ -207,10 +216,10 @@ func faults() []fault {
 				good[guard] = strings.Replace(good[guard], fmt.Sprintf(`"u":%d`, guard), `"u":"str"`, 1)
 				bad := append([]string{}, good...)
 				bad[k] = strings.Replace(bad[k], fmt.Sprintf(`"u":%d`, k), `"u":"str"`, 1)
-				return map[string][]byte{"good.json": join(good), "bad.json": join(bad), "ok.json": okJSON()}
+				return map[string][]byte{"ugood.json": join(good), "ubad.json": join(bad), "ok.json": okJSON()}
 			},
-			bad:  func(k int) src { return jsonSrc("bad.json", taPred) },
-			good: func(k int) src { return jsonSrc("good.json", taPred) },
+			bad:  func(k int) src { return jsonSrc("ubad.json", taPred) },
+			good: func(k int) src { return jsonSrc("ugood.json", taPred) },
 		},
 		jsonFileFault("json-malformed", "JSON line k is truncated in the middle of the object",
 			[]string{"parse"}, func(k int) string { return fmt.Sprintf(`{"id":%d,"g":%d,`, k, k%3) }),
@@ -348,9 +357,6 @@ func ops() []op {
 		op{name: "inner-join-on-predicate", swallower: never, sql: func(x src) string {
 			return fmt.Sprintf("SELECT a.id AS aid, b.%s AS bid FROM %s a JOIN %s b ON a.g = b.%s AND %s", x.id, x.ok, x.table, x.g, x.pred("b"))
 		}},
-		op{name: "left-join-where-above", swallower: never, sql: func(x src) string {
-			return fmt.Sprintf("SELECT a.id AS aid, b.%s AS bid FROM %s a LEFT JOIN %s b ON a.g = b.%s WHERE %s", x.id, x.ok, x.table, x.g, x.pred("b"))
-		}},
 		op{name: "cross-join/fault-second", swallower: never, sql: func(x src) string {
 			return fmt.Sprintf("SELECT a.id AS aid, b.%s AS bid FROM %s a, %s", x.id, x.ok, sub(x, "f", "b"))
 		}},
@@ -376,16 +382,16 @@ func ops() []op {
 			return fmt.Sprintf("WITH x AS (SELECT b.%s AS id FROM %s b WHERE %s) SELECT id FROM x", x.id, x.table, x.pred("b"))
 		}},
 		op{name: "scalar-subquery", swallower: always("subquery-expr"), sql: func(x src) string {
-			return fmt.Sprintf("SELECT a.id AS id, (SELECT b.%s FROM %s b WHERE %s) AS l FROM %s a", x.id, x.table, x.pred("b"), x.ok)
+			return fmt.Sprintf("SELECT a.id AS id, %s AS l FROM %s a", x.lst(fmt.Sprintf("(SELECT b.%s FROM %s b WHERE %s)", x.id, x.table, x.pred("b"))), x.ok)
 		}},
 		op{name: "scalar-subquery-no-from", swallower: always("subquery-expr"), sql: func(x src) string {
-			return fmt.Sprintf("SELECT (SELECT b.%s FROM %s b WHERE %s) AS l", x.id, x.table, x.pred("b"))
+			return fmt.Sprintf("SELECT %s AS l", x.lst(fmt.Sprintf("(SELECT b.%s FROM %s b WHERE %s)", x.id, x.table, x.pred("b"))))
 		}},
 		op{name: "scalar-subquery-in-where", swallower: always("subquery-expr"), sql: func(x src) string {
 			return fmt.Sprintf("SELECT a.id AS id FROM %s a WHERE len((SELECT b.%s FROM %s b WHERE %s)) > 0", x.ok, x.id, x.table, x.pred("b"))
 		}},
 		op{name: "scalar-subquery-multi-column", swallower: always("subquery-expr-multi"), sql: func(x src) string {
-			return fmt.Sprintf("SELECT a.id AS id, (SELECT b.%s, b.%s FROM %s b WHERE %s) AS l FROM %s a", x.id, x.s, x.table, x.pred("b"), x.ok)
+			return fmt.Sprintf("SELECT a.id AS id, %s AS l FROM %s a", x.lst(fmt.Sprintf("(SELECT b.%s, b.%s FROM %s b WHERE %s)", x.id, x.s, x.table, x.pred("b"))), x.ok)
 		}},
 		op{name: "in-subquery", swallower: always("in-subquery"), sql: func(x src) string {
 			return fmt.Sprintf("SELECT a.id AS id FROM %s a WHERE a.id IN (SELECT b.%s FROM %s b WHERE %s)", x.ok, x.id, x.table, x.pred("b"))
@@ -418,6 +424,7 @@ type acase struct {
 	p       pos
 	opt     bool
 	control bool
+	ctl     string // key of the control twin
 	self    bool // self-test: reads the fault-free input although judged as faulted
 	dir     string
 	sql     string
@@ -433,10 +440,18 @@ func (a *acase) args() []string {
 	return args
 }
 
-func ctlKey(f *fault, o *op, mode string, opt bool, p pos) string {
-	// the control of an expression fault does not depend on k (the guard row -1 never exists); the
-	// control of a file fault reads the clean file: also independent of k.
-	return fmt.Sprintf("%s|%s|%s|%v", f.name, o.name, mode, opt)
+// ctlKey: the control of an expression fault does not depend on k (the guard row -1 never
+// exists); the control of a file fault reads the clean file, which has the same name and the same
+// content in every fixture that contains it. So controls are shared by (query text, mode, opt).
+func ctlKey(sql string, mode string, opt bool) string {
+	return fmt.Sprintf("%s|%s|%v", sql, mode, opt)
+}
+
+func forMode(x src, mode string) src {
+	if mode == "csv" {
+		x.list = func(e string) string { return "len(" + e + ")" }
+	}
+	return x
 }
 
 func stderrError(stderr []byte) string {
@@ -504,10 +519,11 @@ func Run(c *core.Ctx) core.FinishOpts {
 					for _, p := range ps {
 						dir := fixture[f.name+"|"+p.name]
 						id := fmt.Sprintf("%s|%s|%s|%s|opt=%v", f.name, o.name, mode, p.name, opt)
-						cases = append(cases, &acase{id: id, f: f, o: o, mode: mode, p: p, opt: opt, dir: dir, sql: o.sql(f.bad(p.k))})
-						ck := ctlKey(f, o, mode, opt, p)
+						csql := o.sql(forMode(f.good(p.k), mode))
+						ck := ctlKey(csql, mode, opt)
+						cases = append(cases, &acase{id: id, f: f, o: o, mode: mode, p: p, opt: opt, dir: dir, sql: o.sql(forMode(f.bad(p.k), mode)), ctl: ck})
 						if _, ok := controls[ck]; !ok {
-							ctl := &acase{id: "control|" + ck, f: f, o: o, mode: mode, p: p, opt: opt, control: true, dir: dir, sql: o.sql(f.good(p.k))}
+							ctl := &acase{id: "control|" + ck, f: f, o: o, mode: mode, p: p, opt: opt, control: true, dir: dir, sql: csql, ctl: ck}
 							controls[ck] = ctl
 							cases = append(cases, ctl)
 						}
@@ -527,8 +543,8 @@ func Run(c *core.Ctx) core.FinishOpts {
 		// keep the controls and the op-none twin needed to judge the selected case
 		for _, a := range cases {
 			for _, k := range keep {
-				if a != k && a.f == k.f && a.mode == k.mode && a.opt == k.opt &&
-					((a.control && a.o == k.o) || (!a.control && a.o.name == "none-select-list" && a.p == k.p)) {
+				if a != k && a.mode == k.mode && a.opt == k.opt &&
+					((a.control && a.ctl == k.ctl) || (!a.control && a.f == k.f && a.o.name == "none-select-list" && a.p == k.p)) {
 					keep = append(keep, a)
 				}
 			}
@@ -542,7 +558,7 @@ func Run(c *core.Ctx) core.FinishOpts {
 	if selftest {
 		for _, a := range cases {
 			if !a.control && a.o.name == "where" && selfN < 3 {
-				a.sql = a.o.sql(a.f.good(a.p.k))
+				a.sql = a.o.sql(forMode(a.f.good(a.p.k), a.mode))
 				a.self = true
 				selfN++
 			}
@@ -555,6 +571,29 @@ func Run(c *core.Ctx) core.FinishOpts {
 		a.res = runner.Exec(cli.Run{Args: a.args(), Dir: a.dir})
 		a.ran = true
 	})
+
+	// a run that hit the 60 s watchdog is retried once with little parallelism (a loaded machine
+	// must not turn into inconclusive cases); what still times out is listed in the evidence.
+	var slow []*acase
+	for _, a := range cases {
+		if a.res.TimedOut {
+			slow = append(slow, a)
+		}
+	}
+	c.Count("watchdog_retries", len(slow))
+	core.Parallel(len(slow), 3, func(i int) {
+		a := slow[i]
+		a.res = runner.Exec(cli.Run{Args: a.args(), Dir: a.dir})
+	})
+	var stillSlow []string
+	for _, a := range slow {
+		if a.res.TimedOut && len(stillSlow) < 30 {
+			stillSlow = append(stillSlow, a.id+" :: "+a.sql)
+		}
+	}
+	if len(stillSlow) > 0 {
+		c.Note("watchdog_cases", stillSlow)
+	}
 
 	// judge, in deterministic order
 	type cell struct{ injected, detected int }
@@ -571,7 +610,7 @@ func Run(c *core.Ctx) core.FinishOpts {
 			continue
 		}
 		c.Count("control_runs", 1)
-		ck := ctlKey(a.f, a.o, a.mode, a.opt, a.p)
+		ck := a.ctl
 		switch {
 		case a.res.TimedOut:
 			c.Inconclusive("watchdog")
@@ -600,7 +639,7 @@ func Run(c *core.Ctx) core.FinishOpts {
 			c.Inconclusive("watchdog")
 			continue
 		}
-		if !ctlOK[ctlKey(a.f, a.o, a.mode, a.opt, a.p)] {
+		if !ctlOK[a.ctl] {
 			continue // counted above
 		}
 		c.Eval(1)
